@@ -353,8 +353,9 @@ theorem unlink_seg (d : Disk) (h : Clean d) (fs : List WalFile) :
     simp only [applyEv]
     rw [eraseW_head f fs hs]
 
-theorem phase3_seg (d : Disk) (h : Clean d) (o : Opts) (d' : Disk) (s : State) (h3 : phase3 d o = .ok (d', s)) :
-    Seg (Good3 d) (fun x => x = d) (phase3Events d) (fun x => x = d') := by
+theorem phase3_seg (d : Disk) (h : Clean d) (o : Opts) (d' : Disk) (s : State) (h3 : phase3 d o = .ok (d', s))
+    (junks : List Layer) :
+    Seg (Good3 d) (fun x => x = d) (phase3Events d junks) (fun x => x = d') := by
   have hread : walReadable d.wal = true := h.ok.walRead
   have hcomps := h.nocomp
   -- the disk phase 3 returns
@@ -389,11 +390,12 @@ theorem phase3_seg (d : Disk) (h : Clean d) (o : Opts) (d' : Disk) (s : State) (
         refine ⟨?_, rfl⟩
         exact diskOk_logical_congr rfl rfl rfl (by intro hf; cases hf) h.ok
   -- stage B: the recovery flush
-  have hgoodB : ∀ t : TableDir, (∀ c, t ≠ .complete c) → ∀ x : Disk,
-      x = { d with walDir := true, tables := d.tables ++ [(maxGen (tblsOf d.tables) + 1, t)] } → isPartMeta t = false →
-      Good3 d x := by
-    intro t ht x hx hpm
-    subst hx
+  have hgoodB : ∀ t : TableDir,
+      (t = .part false ∨ ∃ J, t = .complete J ∧ ∀ k, Layer.get J k ≠ none → Layer.get (applyMuts [] (walMuts d.wal)) k ≠ none) →
+      Good3 d { d with walDir := true, tables := d.tables ++ [(maxGen (tblsOf d.tables) + 1, t)] } := by
+    intro t ht
+    have hpm : isPartMeta t = false := by
+      rcases ht with (rfl | ⟨J, rfl, _⟩) <;> rfl
     refine ⟨?_, ?_⟩
     · refine { h.ok with tblSorted := ?_, walDirOk := (by intro hf; cases hf), covered := ?_ }
       · show ((d.tables ++ _).map (·.1)).Pairwise (· < ·)
@@ -414,13 +416,24 @@ theorem phase3_seg (d : Disk) (h : Clean d) (o : Opts) (d' : Disk) (s : State) (
     · funext k
       simp only [logical_eq, effTables, phase1, hcomps, List.foldl_nil]
       rw [tblsOf_append]
-      cases t with
-      | part b => simp [tblsOf_cons_part, tblsOf_nil]
-      | complete c => exact absurd rfl (ht c)
+      rcases ht with (rfl | ⟨J, rfl, hJ⟩)
+      · simp [tblsOf_cons_part, tblsOf_nil]
+      · rw [tblsOf_cons_complete, tblsOf_nil]
+        unfold rd
+        rw [tablesGet_append, tablesGet_single]
+        cases hm : Layer.get (applyMuts [] (walMuts d.wal)) k with
+        | some x => cases x <;> rfl
+        | none =>
+          have : Layer.get J k = none := by
+            cases hj : Layer.get J k with
+            | none => rfl
+            | some y => exact absurd hm (hJ k (by rw [hj]; simp))
+          simp [this]
   have hB : Seg (Good3 d) (fun x => x = { d with walDir := true })
       (if (walMuts d.wal).isEmpty = true then []
-        else [Ev.tblMkdir (maxGen (tblsOf d.tables) + 1), Ev.tblProgress (maxGen (tblsOf d.tables) + 1),
-              Ev.tblComplete (maxGen (tblsOf d.tables) + 1) (applyMuts [] (walMuts d.wal))])
+        else [Ev.tblMkdir (maxGen (tblsOf d.tables) + 1), Ev.tblProgress (maxGen (tblsOf d.tables) + 1)] ++
+              junkEvs (maxGen (tblsOf d.tables) + 1) (applyMuts [] (walMuts d.wal)) junks ++
+              [Ev.tblComplete (maxGen (tblsOf d.tables) + 1) (applyMuts [] (walMuts d.wal))])
       (fun x => x = { tables := tablesB d, walDir := true, wal := d.wal, comps := [] }) := by
     split
     · rename_i he
@@ -434,25 +447,56 @@ theorem phase3_seg (d : Disk) (h : Clean d) (o : Opts) (d' : Disk) (s : State) (
           d.tables ++ [(maxGen (tblsOf d.tables) + 1, .part false)] := insertT_last _ _ _ (keys_lt_of_clean h)
       have habs : ∀ p ∈ d.tables, p.1 ≠ maxGen (tblsOf d.tables) + 1 := by
         intro p hp; have := keys_lt_of_clean h p hp; omega
-      refine Seg.cons (Q := fun x => x = { d with walDir := true, tables := d.tables ++ [(maxGen (tblsOf d.tables) + 1, .part false)] }) ?_
-        (Seg.cons (Q := fun x => x = { d with walDir := true, tables := d.tables ++ [(maxGen (tblsOf d.tables) + 1, .part false)] }) ?_
-          (Seg.cons (Q := fun x => x = { tables := tablesB d, walDir := true, wal := d.wal, comps := [] }) ?_ (Seg.nil ?_)))
-      · intro x hx; subst hx
-        refine ⟨diskOk_logical_congr rfl rfl rfl (by intro hf; cases hf) h.ok, ?_⟩
-        simp only [applyEv]
-        rw [hins]
-      · intro x hx
-        exact ⟨hgoodB (.part false) (by intro c hc; cases hc) x hx rfl, by subst hx; rfl⟩
-      · intro x hx
-        refine ⟨hgoodB (.part false) (by intro c hc; cases hc) x hx rfl, ?_⟩
-        subst hx
-        simp only [applyEv]
+      -- the unfinished table: not loadable, or loadable and showing keys of the replayed store only
+      let PJ : Disk → Prop := fun x => ∃ t : TableDir,
+        (t = .part false ∨ ∃ J, t = .complete J ∧ ∀ k, Layer.get J k ≠ none → Layer.get (applyMuts [] (walMuts d.wal)) k ≠ none) ∧
+        x = { d with walDir := true, tables := d.tables ++ [(maxGen (tblsOf d.tables) + 1, t)] }
+      have hupd : ∀ (t : TableDir) (c : Layer),
+          updT (maxGen (tblsOf d.tables) + 1) (fun _ => TableDir.complete c) (d.tables ++ [(maxGen (tblsOf d.tables) + 1, t)]) =
+            d.tables ++ [(maxGen (tblsOf d.tables) + 1, .complete c)] := by
+        intro t c
         rw [updT_append, updT_id_of_absent _ _ _ habs]
-        unfold tablesB
-        rw [if_neg he, hcomps]
         simp [updT]
-      · intro x hx; subst hx
-        exact ⟨flushed_good d h [] d.wal rfl true (by simp), rfl⟩
+      have s12 : Seg (Good3 d) (fun x => x = { d with walDir := true })
+          [Ev.tblMkdir (maxGen (tblsOf d.tables) + 1), Ev.tblProgress (maxGen (tblsOf d.tables) + 1)] PJ := by
+        refine Seg.cons (Q := fun x => x = { d with walDir := true, tables := d.tables ++ [(maxGen (tblsOf d.tables) + 1, .part false)] }) ?_
+          (Seg.cons (Q := PJ) ?_ (Seg.nil ?_))
+        · intro x hx; subst hx
+          refine ⟨diskOk_logical_congr rfl rfl rfl (by intro hf; cases hf) h.ok, ?_⟩
+          simp only [applyEv]
+          rw [hins]
+        · intro x hx
+          exact ⟨hx ▸ hgoodB (.part false) (Or.inl rfl), ⟨.part false, Or.inl rfl, by subst hx; rfl⟩⟩
+        · intro x ⟨t, ht, hx⟩
+          exact ⟨hx ▸ hgoodB t ht, ⟨t, ht, hx⟩⟩
+      have sJ : Seg (Good3 d) PJ (junkEvs (maxGen (tblsOf d.tables) + 1) (applyMuts [] (walMuts d.wal)) junks) PJ := by
+        unfold junkEvs
+        induction junks with
+        | nil =>
+          apply Seg.nil
+          intro x ⟨t, ht, hx⟩
+          exact ⟨hx ▸ hgoodB t ht, ⟨t, ht, hx⟩⟩
+        | cons j js ih =>
+          rw [List.map_cons]
+          refine Seg.cons (Q := PJ) ?_ ih
+          intro x ⟨t, ht, hx⟩
+          refine ⟨hx ▸ hgoodB t ht, ⟨.complete (restrictTo (applyMuts [] (walMuts d.wal)) j), Or.inr ⟨_, rfl, restrict_get _ j⟩, ?_⟩⟩
+          subst hx
+          simp only [applyEv]
+          rw [hupd]
+      have sC : Seg (Good3 d) PJ [Ev.tblComplete (maxGen (tblsOf d.tables) + 1) (applyMuts [] (walMuts d.wal))]
+          (fun x => x = { tables := tablesB d, walDir := true, wal := d.wal, comps := [] }) := by
+        refine Seg.cons (Q := fun x => x = { tables := tablesB d, walDir := true, wal := d.wal, comps := [] }) ?_ (Seg.nil ?_)
+        · intro x ⟨t, ht, hx⟩
+          refine ⟨hx ▸ hgoodB t ht, ?_⟩
+          subst hx
+          simp only [applyEv]
+          rw [hupd]
+          unfold tablesB
+          rw [if_neg he, hcomps]
+        · intro x hx; subst hx
+          exact ⟨flushed_good d h [] d.wal rfl true (by simp), rfl⟩
+      exact Seg.append (Seg.append s12 sJ) sC
   -- stage C: the log files go, oldest first
   have hC := unlink_seg d h d.wal [] rfl
   -- stage D: the directory is removed and re-created with a fresh file
@@ -491,15 +535,16 @@ theorem phase3_seg (d : Disk) (h : Clean d) (o : Opts) (d' : Disk) (s : State) (
 
 /-- the event sequence of `Open` produces the disk `recover` computes -/
 theorem recover_events (d : Disk) (h : DiskOk d) (o : Opts) (d' : Disk) (s : State)
-    (hr : recover d o = .ok (d', s)) : applyEvs d (recoverEvents d) = d' := by
+    (hr : recover d o = .ok (d', s)) (junks : List Layer := []) : applyEvs d (recoverEvents d junks) = d' := by
   rw [recover_eq d h] at hr
   unfold recoverEvents
   rw [phase12_ok d h, applyEvs_append, cleanEvents_full d h]
-  exact (phase3_seg (norm d) (norm_clean d h) o d' s hr _ rfl).2
+  exact (phase3_seg (norm d) (norm_clean d h) o d' s hr junks _ rfl).2
 
 /-- after any prefix of the calls `Open` makes, the disk is well-formed and its recovery serves the same content -/
-theorem recover_prefix (d : Disk) (h : DiskOk d) (n : Nat) :
-    DiskOk (applyEvs d ((recoverEvents d).take n)) ∧ logical (applyEvs d ((recoverEvents d).take n)) = logical d := by
+theorem recover_prefix (d : Disk) (h : DiskOk d) (n : Nat) (junks : List Layer := []) :
+    DiskOk (applyEvs d ((recoverEvents d junks).take n)) ∧
+      logical (applyEvs d ((recoverEvents d junks).take n)) = logical d := by
   obtain ⟨d', s, hr⟩ := recover_ok d h {}
   rw [recover_eq d h] at hr
   unfold recoverEvents
@@ -510,7 +555,7 @@ theorem recover_prefix (d : Disk) (h : DiskOk d) (n : Nat) :
     obtain ⟨h1, h2⟩ := cleanEvents_prefix d h n
     exact ⟨h1, logical_of_norm h2⟩
   · rw [List.take_of_length_le (by omega), cleanEvents_full d h]
-    obtain ⟨h1, h2⟩ := (phase3_seg (norm d) (norm_clean d h) {} d' s hr _ rfl).1 (n - (cleanEvents d).length)
+    obtain ⟨h1, h2⟩ := (phase3_seg (norm d) (norm_clean d h) {} d' s hr junks _ rfl).1 (n - (cleanEvents d).length)
     refine ⟨h1, h2.trans (logical_of_norm ?_)⟩
     exact norm_of_clean (norm_clean d h)
 
